@@ -309,7 +309,7 @@ def parse_case(line):
         n_em = x[12]
         em = [t[i + 4 * k:i + 4 * k + 4] for k in range(n_em)]
         i += 4 * n_em
-        banks.append({"asv": f[0], "lsv": f[1], "dep_limit": f[8], "bor_limit": f[9], "tag": f[10], "decimals": f[11],
+        banks.append({"asv": f[0], "lsv": f[1], "tas": f[2], "tls": f[3], "ins": f[4], "grp": f[5], "prog": f[6], "dep_limit": f[8], "bor_limit": f[9], "tag": f[10], "decimals": f[11],
                       "flags": f[12], "op_state": f[17], "ir": f[18:], "awi": x[0], "awm": x[1], "lwi": x[2], "lwm": x[3],
                       "tier": x[4], "tavil": x[5], "price": x[6], "tokprog": x[7], "bps": x[8], "maxfee": x[9],
                       "orig": x[10], "etag": x[11], "emode": em, "last_update": f[7]})
